@@ -361,6 +361,9 @@ func keysOfHistory(evs []Event) []skey {
 
 // scriptForGenerated rebuilds the script of a generated scenario from its configuration
 func scriptForGenerated(cfg EngineCfg) Script {
+	if cfg.GenMode == "longchain" {
+		return allDefaultScript{}
+	}
 	if cfg.GenMode == "longloop" || cfg.GenMode == "hugeloop" {
 		var rounds int
 		fmt.Sscanf(cfg.GenSeed, "%d", &rounds)
@@ -399,6 +402,11 @@ func longLoopCfg(rounds int) EngineCfg {
 // the script of the long loop: everything succeeds; the third node answers "again" (2) until the last round, then "done" (3)
 type longLoopScript struct{ rounds int }
 
+// everything succeeds and answers the default action
+type allDefaultScript struct{}
+
+func (allDefaultScript) Get(k skey) Outcome { return Outcome{Out: "ok", Act: 1} }
+
 func (l longLoopScript) Get(k skey) Outcome {
 	o := Outcome{Out: "ok", Act: 1}
 	if k.Phase == "post" && k.Node == 1 {
@@ -415,6 +423,24 @@ func genEngineScenarios(seed int64, count int, mode string, emit func(cfg Engine
 		cfg := longLoopCfg(1005)
 		evs, _ := runEngineScenario(cfg, scriptForGenerated(cfg))
 		emit(cfg, "gen:longloop", evs)
+		return
+	}
+	if mode == "longchain" {
+		// a straight chain of several hundred distinct nodes (more than an 8-bit index holds): a table with one entry per node
+		n := 300 + int(seed%7)
+		cfg := EngineCfg{Top: n + 1, Runs: 1, Acts: []int{1, 2, 3}, Outs: []string{"ok"}, CtxKind: "cancel", GenMode: "longchain", GenSeed: fmt.Sprint(n)}
+		var ops []ConnOp
+		for i := 1; i <= n; i++ {
+			cfg.Nodes = append(cfg.Nodes, NodeCfg{Kind: "leaf", Sty: []string{"-", "-", "-"}, N: 1, Gk: "plain"})
+			if i < n {
+				ops = append(ops, ConnOp{n + 1, i, 1, i + 1})
+			}
+		}
+		cfg.Nodes = append(cfg.Nodes, NodeCfg{Kind: "flow", Retry: true, N: 1, Sty: []string{"-", "-", "-"}, Start: 1, Gk: "flow"})
+		cfg.Conns = [][]ConnOp{ops}
+		cfg.Ctx0 = []bool{false}
+		evs, _ := runEngineScenario(cfg, scriptForGenerated(cfg))
+		emit(cfg, "gen:longchain", evs)
 		return
 	}
 	if mode == "hugeloop" {
